@@ -5,24 +5,42 @@ use std::sync::atomic::{AtomicU64, Ordering};
 pub struct Counting;
 static TOTAL: AtomicU64 = AtomicU64::new(0);
 static LARGEST: AtomicU64 = AtomicU64::new(0);
+// live bytes and their high-water mark (used by the robust family: peak memory of one call)
+static LIVE: AtomicU64 = AtomicU64::new(0);
+static PEAK: AtomicU64 = AtomicU64::new(0);
+fn grow(n: u64) {
+    let l = LIVE.fetch_add(n, Ordering::Relaxed) + n;
+    PEAK.fetch_max(l, Ordering::Relaxed);
+}
+fn shrink(n: u64) {
+    let _ = LIVE.fetch_update(Ordering::Relaxed, Ordering::Relaxed, |l| Some(l.saturating_sub(n)));
+}
 
 unsafe impl GlobalAlloc for Counting {
     unsafe fn alloc(&self, l: Layout) -> *mut u8 {
         TOTAL.fetch_add(l.size() as u64, Ordering::Relaxed);
         LARGEST.fetch_max(l.size() as u64, Ordering::Relaxed);
+        grow(l.size() as u64);
         System.alloc(l)
     }
     unsafe fn dealloc(&self, p: *mut u8, l: Layout) {
+        shrink(l.size() as u64);
         System.dealloc(p, l)
     }
     unsafe fn realloc(&self, p: *mut u8, l: Layout, n: usize) -> *mut u8 {
         TOTAL.fetch_add(n as u64, Ordering::Relaxed);
         LARGEST.fetch_max(n as u64, Ordering::Relaxed);
+        if n >= l.size() {
+            grow((n - l.size()) as u64);
+        } else {
+            shrink((l.size() - n) as u64);
+        }
         System.realloc(p, l, n)
     }
     unsafe fn alloc_zeroed(&self, l: Layout) -> *mut u8 {
         TOTAL.fetch_add(l.size() as u64, Ordering::Relaxed);
         LARGEST.fetch_max(l.size() as u64, Ordering::Relaxed);
+        grow(l.size() as u64);
         System.alloc_zeroed(l)
     }
 }
@@ -34,4 +52,15 @@ pub fn reset() {
 /// (total bytes requested, largest single request)
 pub fn stats() -> (u64, u64) {
     (TOTAL.load(Ordering::Relaxed), LARGEST.load(Ordering::Relaxed))
+}
+
+/// start a peak measurement: returns the live byte count now; `peak_since(base)` is the largest number of
+/// bytes that were live at one time above that level since the call
+pub fn peak_begin() -> u64 {
+    let l = LIVE.load(Ordering::Relaxed);
+    PEAK.store(l, Ordering::Relaxed);
+    l
+}
+pub fn peak_since(base: u64) -> u64 {
+    PEAK.load(Ordering::Relaxed).saturating_sub(base)
 }
